@@ -4,6 +4,7 @@ use std::io::{self, BufRead, Write};
 use std::panic::{catch_unwind, AssertUnwindSafe};
 
 mod alloc;
+mod combo_cmd;
 mod dynspec;
 mod reader_cmd;
 mod tools_cmd;
@@ -33,6 +34,8 @@ fn main() {
             "R" => reader_cmd::run_blocking(&toks[1..], false),
             "M" => reader_cmd::run_blocking(&toks[1..], true),
             "A" => reader_cmd::run_async(&toks[1..]),
+            "X" => combo_cmd::run_x(&toks[1..]),
+            "Y" => combo_cmd::run_y(&toks[1..]),
             other => format!("BADCMD {}", other),
         }))
         .unwrap_or_else(|_| "BADCASE harness-panic".to_string());
